@@ -147,6 +147,7 @@ func Run(c *core.Ctx) {
 	ctlFamily(c)
 	rawDeclFamily(c)
 	srcTextFamily_(c)
+	srcLinesFamily(c)
 	concGenFamily(c)
 	lap("trace and control-transfer probes")
 	c.Oblige("correspondence", destFamily+" (every compiled probe case, rendered again into bufio.Writers of several sizes, a strings.Builder, a Write-only writer and a pipe that persist across cases)", c.NFails(destFamily) == 0, "")
